@@ -348,7 +348,9 @@ class C11(PropBase):
                                     n, [(lt["kind"], lt["id"]) for lt in lights[:n]], lights[n]["kind"]))
             self._joint(st)
             return
-        if exp[0] == "error" and not st.x.get("bailing"):
+        if ev.get("deferred_termination"):
+            lights = lights[: exp[1]]  # tolerated repair of K1: these were returned, the termination raises on the next receive
+        elif exp[0] == "error" and not st.x.get("bailing"):
             raise Diverged("termination not raised (C08's statement)")
         if not ev["well_typed"]:
             raise Diverged("receive returned a non-list (C05's statement)")
@@ -396,7 +398,7 @@ class C11(PropBase):
                     moved = True
             for to in ("c", "s"):
                 se = w.s[to]
-                if se.inbox and se.real.state.name != "CLOSED" and se.model.st != "CL":
+                if (se.inbox or se.pending_term is not None) and se.real.state.name != "CLOSED" and se.model.st != "CL":
                     self._deliver(st, {"op": "deliver", "to": to, "n": None})
                     moved = True
             if not moved:
